@@ -23,6 +23,27 @@ type RefSchema struct {
 	Package *Package
 	Schema  string
 	To      RootSchema
+
+	// source is the full name of the proto descriptor the schema name was
+	// given to, when the ref was created from reflection. Schema names are the
+	// descriptor's path joined with "_", so two descriptors (message Foo.Bar
+	// and message Foo_Bar) can ask for the same name.
+	source protoreflect.FullName
+}
+
+// claim records that the schema name of the ref belongs to the descriptor. A
+// name which was given to another descriptor before is an error: the two would
+// otherwise share one schema.
+func (ref *RefSchema) claim(descriptor protoreflect.Descriptor) error {
+	fullName := descriptor.FullName()
+	if ref.source == "" {
+		ref.source = fullName
+		return nil
+	}
+	if ref.source != fullName {
+		return fmt.Errorf("schema name %s is used by both %s and %s", ref.FullName(), ref.source, fullName)
+	}
+	return nil
 }
 
 func (ref *RefSchema) check() error {
